@@ -13,11 +13,11 @@ func init() {
 	register(&Prop{
 		ID: "C02", Level: "exploration", DesignRef: "DESIGN.md section 4 C02",
 		Rule: "one case = one scenario: a population (NewPopulation / NewPopulationRandom / ReadPopulation, size 3..150) turned over " +
-			"25-60 times by the sequential or parallel executor under one of 7 fitness shapes and a random option set; after every " +
+			"25-60 times by the sequential or parallel executor under one of 8 fitness shapes and a random option set; after every " +
 			"epoch the population monitor checks size, freshness of organisms, the species partition, id uniqueness / non-reuse and ages. " +
 			"evaluations = epochs. An epoch is non-trivial if the population has >= 2 species before or after it; distinct by " +
 			"(species sizes, ages, population size, fitness shape) signature.",
-		Assumptions: []string{"fitness finite, non-negative, <= 1e12", "population size 3..150, 25-60 consecutive epochs"},
+		Assumptions: []string{"fitness finite, non-negative; 8 shapes incl. values near the top of the float64 range whose sum over the population overflows", "population size 3..150, 25-60 consecutive epochs"},
 		Cases: func(tier string) int {
 			if tier == "quick" {
 				return 384
